@@ -71,7 +71,7 @@ CHECKS['C03'] = {
     'unproved': ['evaluate arms FunctionCall (all functions), TypeConversion, Aggregate', 'parser_tree_converter lowering, projection naming'],
 }
 CHECKS['C09'] = {
-    'verus_units': ['eval', 'follow', 'select', 'engine', 'extract', 'parser', 'executor', 'aggregate', 'aggdispatch', 'join', 'mapping'],
+    'verus_units': ['eval', 'follow', 'select', 'engine', 'extract', 'parser', 'executor', 'aggregate', 'aggdispatch', 'join', 'joinload', 'mapping'],
     'only_safety': True,
     'clause_prefixes': ['c09'],
     'technique': 'contract-based deductive verification (Verus): absence of arithmetic overflow, division by zero, failed callee preconditions (unwrap, indexing, unreachable!) in every extracted function',
@@ -85,6 +85,12 @@ CHECKS['C09'] = {
 
 CHECKS['C08'] = {
     'verus_units': ['select'],
+    'kani': {
+        'sets': ['value_order'],
+        'quick': ['float_eq_implies_same_hash', 'float_eq_reflexive', 'float_cmp_agrees_with_eq', 'value_laws_float_float', 'value_laws_int_int', 'value_laws_null_null', 'value_laws_bool_bool'],
+        'thorough': ['float_.*', 'value_laws_.*'],
+        'assumptions': ['the hash/eq consistency of Value that the DISTINCT set relies on is re-checked here with the C16 harnesses (scalar variants)'],
+    },
     'clause_prefixes': ['c08'],
     'technique': 'contract-based deductive verification (Verus): DistinctValues::add and the DISTINCT branch of SelectExecutionEngine::execute extracted from /repo, set membership modelled by Value equality classes',
     'claim': 'Proof for all rows and histories of one engine that, on the non-aggregate path, DistinctValues::add returns true exactly for a tuple with no value-equal predecessor and remembers exactly that tuple, and that SelectExecutionEngine::execute emits the projected row iff WHERE is true and (not DISTINCT or first occurrence), otherwise leaves the memory unchanged; surviving rows are emitted unchanged. The aggregate path (execute_result) is NOT covered.',
@@ -176,26 +182,26 @@ CHECKS['C14'] = {
 }
 
 CHECKS['C12'] = {
-    'verus_units': ['executor'],
+    'verus_units': ['executor', 'joinload'],
     'clause_prefixes': ['c12'],
     'technique': 'contract-based deductive verification (Verus): FileExecutor::execute (both nested reader loops, labelled break) extracted from /repo and proved equal to a recursive run function sem_run; the property is proved as lemmas about sem_run',
     'claim': 'Proof for all files (item sequences), engines and flag values that the lines handed to the query by FileExecutor::execute are exactly sem_run(history, files, flag): files in command-line order, lines in file order, each at most once, stopping only at an unreadable line (reported as Err), a failing query (Err), a reached LIMIT or an interrupt; lemma: when nothing stops the run, every line of every file reaches the query exactly once in order, so several files equal their concatenation; statistics.total_lines counts exactly those lines.',
-    'note': 'Trusted: BufRead::lines() yields the items of the file in order (stand-in VReader::lines, materialised: rule E4), std::mem::take, the engine as a state machine over its line history, statistics counters do not overflow within a run (vx_count_* stand-ins). The byte-level splitting of a file into lines (final line without newline, CRLF) is std::io::Lines, not verified. The loader of the joined file (JoinedTableData::execute) has the same shape and is not under contract.',
+    'note': 'Trusted: BufRead::lines() yields the items of the file in order (stand-in VReader::lines, materialised: rule E4), std::mem::take, the engine as a state machine over its line history, statistics counters do not overflow within a run (vx_count_* stand-ins). The byte-level splitting of a file into lines (final line without newline, CRLF) is std::io::Lines, not verified. The loader of the joined file (JoinedTableData::execute) is covered by unit joinload in the same style (sem_load).',
     'level': 'proof',
     'explanation': 'code == sem_run is proved against the extracted text with loop invariants in forward style; lemma_every_line_of_every_file, lemma_interrupted_run_consumes_nothing and lemma_limit_reached_consumes_nothing are pure spec-level inductions.',
     'trusted': COMMON_TRUST + ['std::io::BufRead::lines line splitting'],
-    'unproved': ['JoinedTableData::execute reader loop', 'main.rs collection of input files'],
+    'unproved': ['main.rs collection of input files'],
 }
 CHECKS['C19'] = {
-    'verus_units': ['executor'],
+    'verus_units': ['executor', 'joinload'],
     'clause_prefixes': ['c19'],
     'technique': 'contract-based deductive verification (Verus) of FileExecutor::execute with the running flag as a specified stand-in; degenerate schedules only',
     'claim': 'Proof for the two degenerate schedules (flag cleared before the run / never cleared): with the flag cleared no further line reaches the query, no error is reported, and an aggregate statement still prints the table of exactly the lines consumed (one result call); with the flag set the run is the uninterrupted one. A flip BETWEEN two loads is not modelled (load(&self) cannot change in Verus without atomics in the source), so "every point at which the flag can be cleared" is not decided.',
-    'note': 'Trusted: AtomicBool::load returns the flag value; the flag is constant during the call (interior mutability is invisible). This catches a check that is removed, inverted or moved behind the consuming call. FollowFileExecutor::execute is covered in the same way (flag constant). JoinedTableData::execute (every 10th line) is not under contract.',
+    'note': 'Trusted: AtomicBool::load returns the flag value; the flag is constant during the call (interior mutability is invisible). This catches a check that is removed, inverted or moved behind the consuming call. FollowFileExecutor::execute and JoinedTableData::execute (flag looked at before every 10th line; lemma: at most ten more lines) are covered in the same way (flag constant).',
     'level': 'proof',
     'explanation': 'Rides on the executor unit; lemma_interrupted_run_consumes_nothing.',
     'trusted': COMMON_TRUST + ['flag constant during one call'],
-    'unproved': ['interleavings of the ctrl-c handler with the loop', 'JoinedTableData::execute', 'FollowFileExecutor::execute'],
+    'unproved': ['interleavings of the ctrl-c handler with the loop'],
 }
 
 CHECKS['C04'] = {
@@ -210,7 +216,7 @@ CHECKS['C04'] = {
     'unproved': ['AggregateExecutionEngine::update_aggregates (key evaluation, loop, HAVING closure)', 'execute_result, extract_result_rows_by_column, accept_group', 'GroupAggregator::update_value (PERCENTILE index, sort)'],
 }
 CHECKS['C15'] = {
-    'verus_units': ['aggregate'],
+    'verus_units': ['aggregate', 'aggdispatch'],
     'clause_prefixes': ['c15'],
     'technique': 'contract-based deductive verification (Verus): lemmas (induction, multiset permutation) over the step functions that the extracted GroupAggregator::update arms are proved to implement',
     'claim': 'Proof that an INT SUM that succeeds equals the mathematical sum of the values and that the mathematical sum is invariant under every permutation (multiset equality) and additive over concatenation; BOOL_AND over a concatenation is the conjunction of the parts; the MIN fold returns a lower bound of all values in any order (given the order laws of C16 as hypotheses), COUNT(DISTINCT) and PERCENTILE collect sets/multisets; the aggregator start value does not privilege the first value. Linked to the real code through the per-arm step contracts (C04). Float sums are excluded as in the property; PERCENTILE\'s sort+index and the union of group sets (table assembly) are not covered.',
@@ -222,15 +228,15 @@ CHECKS['C15'] = {
 }
 
 CHECKS['C05'] = {
-    'verus_units': ['join'],
+    'verus_units': ['join', 'joinload'],
     'clause_prefixes': ['c05', 'row.'],
     'technique': 'contract-based deductive verification (Verus): JoinedTableData::add_row / get_joined_row, execute_join and extend_option_result_row extracted from /repo; the index is a specified stand-in, the per-partner calls are tracked by ghost state and an in-body assertion',
-    'claim': 'Proof for all rows, indexes and join clauses that the partners of a queried row are exactly the rows of the joined file stored under a key EQUAL to its join value and not NULL, in joined-file order; that the statement is run once per partner in that order and every result row is kept in order; that a row without partner yields nothing for INNER (or where OUTER is not allowed) and exactly one run on an all-NULL partner for OUTER; that a missing join column is an error. NOT covered: loading the joined file (JoinedTableData::execute), name resolution / `*` order for joined rows (create_joined_column_mapping), ON a.x = b.y side resolution (transform_join).',
+    'claim': 'Proof for all rows, indexes and join clauses that the partners of a queried row are exactly the rows of the joined file stored under a key EQUAL to its join value and not NULL, in joined-file order; that the statement is run once per partner in that order and every result row is kept in order; that a row without partner yields nothing for INNER (or where OUTER is not allowed) and exactly one run on an all-NULL partner for OUTER; that a missing join column is an error. Loading the joined file (JoinedTableData::execute) is proved in unit joinload to run every line once, in order, through the SELECT and to store each resulting row under its join value; a missing file / table / column is an error. NOT covered: name resolution / `*` order for joined rows (create_joined_column_mapping), ON a.x = b.y side resolution (transform_join).',
     'note': 'Trusted: std HashMap<Value, Vec<Row>> as buckets of value-equal keys in insertion order (VRowIndex; relies on C16), TableDefinition::index_for, create_joined_column_mapping as a constructor stand-in, FnMut callback: Verus cannot relate results of successive FnMut calls to one closure value, so "rows of the output = results of the calls" is carried by ghost state inside the body (loop invariant + assertion), not by the postcondition.',
     'level': 'proof',
     'explanation': 'partners(data, key) is the spec from the property text; get_joined_row is proved equal to it; execute_join is proved to call the statement for exactly those rows.',
     'trusted': COMMON_TRUST + ['std HashMap bucket semantics', 'create_joined_column_mapping / transform_join not extracted'],
-    'unproved': ['JoinedTableData::execute (file loading loop)', 'create_joined_column_mapping', 'transform_join'],
+    'unproved': ['create_joined_column_mapping', 'transform_join'],
 }
 
 NOT_APPLICABLE = {
